@@ -1,9 +1,11 @@
 package verifharness
 
 import (
+	"encoding/hex"
 	"encoding/json"
 	"fmt"
 	"math/rand"
+	"os"
 	"reflect"
 	"sort"
 
@@ -44,6 +46,10 @@ func coreMain(args []string) error {
 		return coreCmdRace(m)
 	case "exprrows":
 		return coreExprRows(m)
+	case "astone":
+		return coreASTOne(m)
+	case "concurrent":
+		return coreConcurrent(m)
 	}
 	return fmt.Errorf("core: unknown mode %s", args[0])
 }
@@ -387,6 +393,16 @@ func coreAST(m map[string]string) error {
 	k := argInt(m, "layouts", 3)
 	rnd := rand.New(rand.NewSource(Seed() + 17))
 	renderings, distinctLayouts := 0, map[string]bool{}
+	var lexw *ndjsonWriter
+	if m["dumplex"] != "" {
+		// every rendered reader also goes to the token-level check (spec/LexTrace.tla)
+		lexw, err = newNDJSON(m["dumplex"])
+		if err != nil {
+			return err
+		}
+		defer lexw.Close()
+	}
+	lexID := 0
 	for _, c := range cases {
 		want := c.canonical()
 		base := renderCase(c, canonicalLayout())
@@ -407,6 +423,14 @@ func coreAST(m map[string]string) error {
 				texts = renderCase(&cc, l)
 			}
 			renderings++
+			if lexw != nil {
+				for _, t := range texts {
+					lexID++
+					if err := lexw.Write(lexInput{ID: lexID, Kind: fmt.Sprintf("case %d layout %d", c.ID, i), Hex: hex.EncodeToString([]byte(t))}); err != nil {
+						return err
+					}
+				}
+			}
 			lb, _ := json.Marshal(l.describe())
 			distinctLayouts[string(lb)] = true
 			d, err := parseTexts(texts)
@@ -465,4 +489,41 @@ func sortedVals(m map[string]Val) []string {
 	}
 	sort.Strings(ks)
 	return ks
+}
+
+// coreASTOne re-checks one stored rendering (replay of a C08 violation).
+func coreASTOne(m map[string]string) error {
+	raw, err := os.ReadFile(m["in"])
+	if err != nil {
+		return err
+	}
+	var in struct {
+		Texts []string `json:"texts"`
+		Base  []string `json:"base"`
+		Case  *Case    `json:"case"`
+	}
+	if err := json.Unmarshal(raw, &in); err != nil {
+		return err
+	}
+	what := ""
+	d, perr := parseTexts(in.Texts)
+	switch {
+	case perr != nil:
+		what = "load-error"
+	default:
+		got, bad := caseOfDialogue(d)
+		if len(bad) > 0 || got.canonical() != in.Case.canonical() {
+			what = "ast-differs-from-generator"
+		} else {
+			base := in.Base
+			if base == nil {
+				base = renderCase(in.Case, canonicalLayout())
+			}
+			if bt, err := parseTexts(base); err == nil && !reflect.DeepEqual(d, bt) {
+				what = "dialogues-not-deep-equal"
+			}
+		}
+	}
+	fmt.Printf("{\"what\":%q}\n", what)
+	return nil
 }
